@@ -2,7 +2,9 @@ package engk
 
 import (
 	"fmt"
+	"os"
 	"sort"
+	"strconv"
 	"strings"
 	"sync"
 	"time"
@@ -30,6 +32,26 @@ type mcRun struct {
 	name    string
 	cfgText string
 	workers int
+}
+
+// nprocs is the parallelism of the check (16 cores by default; VERIF_PROCS overrides).
+func nprocs() int {
+	if n, err := strconv.Atoi(os.Getenv("VERIF_PROCS")); err == nil && n > 0 {
+		return n
+	}
+	return 16
+}
+
+func dedup(cs []obs.Cfg) []obs.Cfg {
+	seen := map[string]bool{}
+	var out []obs.Cfg
+	for _, c := range cs {
+		if !seen[c.ID()] {
+			seen[c.ID()] = true
+			out = append(out, c)
+		}
+	}
+	return out
 }
 
 func cfgSize(c obs.Cfg) int {
@@ -110,10 +132,13 @@ func runMC(c *core.Ctx, runs []mcRun) (states, trans int, details []map[string]i
 	}
 	outs := make([]out, len(runs))
 	var wg sync.WaitGroup
+	sem := make(chan struct{}, max(1, nprocs()/5))
 	for i, r := range runs {
 		wg.Add(1)
 		go func(i int, r mcRun) {
 			defer wg.Done()
+			sem <- struct{}{}
+			defer func() { <-sem }()
 			w := r.workers
 			if w == 0 {
 				w = 2
